@@ -47,6 +47,7 @@ Expected(e) ==
       [] e.op = "det" -> Det(e.a)
       [] e.op = "inv" -> Inv(e.a)
       [] e.op = "inv_rigid" -> RigidInv(e.a)
+      [] e.op = "inv_rigid_sym" -> RigidInv(e.a)
       [] e.op = "inv_affine" -> Inv(e.a)
       [] e.op = "transposed" -> Transp(e.a)
 
@@ -54,13 +55,18 @@ Expected(e) ==
 TwoSided(e) == e.op \in {"inv", "inv_affine", "inv_rigid"} =>
                   /\ MatMul(e.a, e.obs) = Idn(4)
                   /\ MatMul(e.obs, e.a) = Idn(4)
-Conforms(e) == e.pan = 0 /\ e.obs = Expected(e) /\ TwoSided(e)
+\* C06, symbolic lane: the code's inverse of a matrix of free symbols, given as numerators over one common denominator,
+\* satisfies A * N = N * A = D * I with D # 0 - the rational-function identity inv(A) = N / D, fraction-free
+InvSymOk(e) == /\ e.obs.den # F0
+               /\ MatMul(e.a, e.obs.num) = MatScale(Idn(4), e.obs.den)
+               /\ MatMul(e.obs.num, e.a) = MatScale(Idn(4), e.obs.den)
+Conforms(e) == e.pan = 0 /\ (IF e.op = "inv_sym" THEN InvSymOk(e) ELSE e.obs = Expected(e) /\ TwoSided(e))
 
 Init == l = 1
 Step(name) ==
     /\ l <= Len(Rec) /\ Rec[l].op = name
     /\ IF Conforms(Rec[l]) THEN TRUE
-       ELSE PrintT(ToJson([tag |-> "MISMATCH", l |-> l, exp |-> Expected(Rec[l])]))
+       ELSE PrintT(ToJson([tag |-> "MISMATCH", l |-> l, exp |-> IF name = "inv_sym" THEN 0 ELSE Expected(Rec[l])]))
     /\ l' = l + 1
 MulMM == Step("mul_mm")
 MulMV == Step("mul_mv")
@@ -85,7 +91,9 @@ InvA == Step("inv")
 InvRigid == Step("inv_rigid")
 InvAffine == Step("inv_affine")
 TransposedA == Step("transposed")
-Next == MulMM \/ MulMV \/ MulVM \/ MulMS \/ AddMS \/ SubMS \/ DivMS \/ RemMS \/ AddMM \/ SubMM
+InvSym == Step("inv_sym")
+InvRigidSym == Step("inv_rigid_sym")
+Next == InvSym \/ InvRigidSym \/ MulMM \/ MulMV \/ MulVM \/ MulMS \/ AddMS \/ SubMS \/ DivMS \/ RemMS \/ AddMM \/ SubMM
         \/ MulwMM \/ DivMM \/ RemMM \/ NegM \/ Identity \/ ZeroA \/ IsZero \/ Mat2Helper
         \/ DetA \/ InvA \/ InvRigid \/ InvAffine \/ TransposedA
 
